@@ -250,6 +250,33 @@ theorem foldl_range_add (f : Nat → K) (m : Nat) :
   | zero => simp
   | succ m ih => rw [List.range_succ, List.foldl_append, ih, sum_range_succ]; rfl
 
+theorem noRepeat_of_b (A : CRS K) (h : noRepeatb A = true) (i : Nat) : ((A.row i).map (·.1)).Nodup := by
+  unfold noRepeatb at h
+  rw [Array.all_eq_true] at h
+  unfold CRS.row Array.getD
+  split
+  · rename_i hi; simpa using h i hi
+  · simp
+
+/-- nothing recorded ⟹ the residual matrix vanishes -/
+theorem ilutResid_eq_zero (F : IluFactors K) (R : Array (IlutDrop K)) (h : R.all (fun d => d.isEmpty) = true)
+    (i j : Nat) : ilutResid F R i j = 0 := by
+  have hd : (R.getD i ⟨[], [], []⟩).skipped = [] ∧ (R.getD i ⟨[], [], []⟩).cutL = []
+      ∧ (R.getD i ⟨[], [], []⟩).dropU = [] := by
+    rw [Array.all_eq_true] at h
+    unfold Array.getD
+    split
+    · rename_i hi
+      have := h i hi
+      unfold IlutDrop.isEmpty at this
+      simp only [Bool.and_eq_true, List.isEmpty_iff] at this
+      exact ⟨this.1.1, this.1.2, this.2⟩
+    · exact ⟨rfl, rfl, rfl⟩
+  unfold ilutResid
+  simp only []
+  rw [hd.1, hd.2.1, hd.2.2, foldl_range_add]
+  simp
+
 /-- everything the traced constructor guarantees when it succeeds -/
 theorem ilutFactorT_inv (P : IlutParams K) (A : CRS K) (hA : A.WF) (hsq : A.ncols = A.nrows)
     (hnd : ∀ i, ((A.row i).map (·.1)).Nodup) (F : IluFactors K) (R : Array (IlutDrop K))
